@@ -56,13 +56,16 @@ func baseEnv() []string {
 // Load type-checks every non-test package of the module rooted at repo from the
 // working tree, and builds SSA for them.
 // Load loads the repository and folds new helpers (inlinepass.go) before the rules see it.
+// noFold: load the tree as it is (used when recording the anchors: they describe the unfolded tree).
+var noFold bool
+
 func Load(repo string, o LoadOpts) (*World, error) {
 	w, err := loadOnce(repo, o)
 	if err != nil {
 		return nil, err
 	}
 	st := &foldState{failed: map[string]bool{}}
-	for round := 0; round < 40; round++ {
+	for round := 0; round < 40 && !noFold; round++ {
 		add := w.foldRound(o.Overlay, st)
 		if add == nil {
 			break
